@@ -57,6 +57,7 @@ def check_C20(res, replay):
 NUMERIC_PROVED = {
     ("C02", "terms"): "the energy model proved equal to the documented closed form, and the gradient program proved to be its derivative",
     # same atoms, same types, same term structure, but a parameter that is not the one the (translated, proved) equations give
+    # ... or another form of term (a periodic bend where a cosine-harmonic one belongs, another environment): the statement fixes the form by the centre's environment
     ("C12", "build"): "construction applying the translated UFF equations, proved to be the published ones, to each bond / angle / pair of the molecule",
 }
 
@@ -73,7 +74,7 @@ def standard(res, translators, prop_mods, streams, level, checker, rule, extra_a
                 mism = L.compare_lines(lines, model_stream, res, stream, ignore_oracle=(len(spec) > 3 and spec[3] == "no-oracle"),
                                        structural=(len(spec) > 3 and spec[3] == "structural"))
                 if mism and (res.pid, stream) in NUMERIC_PROVED:
-                    L.numeric_search(mism, res, stream, NUMERIC_PROVED[(res.pid, stream)], per_token=(stream == "build"))
+                    L.numeric_search(mism, res, stream, NUMERIC_PROVED[(res.pid, stream)], per_token=(stream == "build"), forms=(stream == "build"))
         post = getattr(res, "post", None)
         if post:
             post(res)
